@@ -559,3 +559,24 @@ pub fn run_workers(prop: &str, tier: Tier, n: usize) -> Vec<Value> {
     }
     out
 }
+
+/// History dimension: runs `f(word)` for every word over `0..k` of length 1..=depth. Every word runs
+/// on a FRESH OS thread (clean thread-locals) and its operations run back-to-back on that thread,
+/// so state leaking from one call into the next (caches, scratch buffers, statics keyed by thread)
+/// is observable and attributable to the word.
+pub fn for_each_history(k: usize, depth: usize, f: impl Fn(&[usize]) + Sync) {
+    let mut all: Vec<Vec<usize>> = Vec::new();
+    for len in 1..=depth {
+        for w in words(k as u64, len) {
+            all.push(w.iter().map(|x| *x as usize).collect());
+        }
+    }
+    for batch in all.chunks(32) {
+        std::thread::scope(|s| {
+            for w in batch {
+                let f = &f;
+                s.spawn(move || f(w));
+            }
+        });
+    }
+}
